@@ -3,7 +3,7 @@ format of spec/T_Rewrite.tla (shared by C08, C09, C10, C13, C14)."""
 import copy
 
 from harness import grammar, render, tlc
-from harness.common import CANARY_BASE, split_canaries
+from harness.common import CANARY_BASE, keep, split_canaries
 from harness.drive import call_parser, exc_name
 from harness.project import project
 from harness.valuations import valuations
@@ -24,7 +24,8 @@ def family_texts(fams, rep, rnd, cap=None):
         rep.count('family_' + fam, len(sents))
         for s in sents:
             toks, _ = render.substitute(s, lits=grammar.STD_LITS)
-            out.append((fam, ' '.join(toks)))
+            if keep(' '.join(toks)):
+                out.append((fam, ' '.join(toks)))
     return out
 
 
